@@ -214,6 +214,7 @@ static void vs_describe_threads(char *buf, size_t cap) {
 
 /* The heart: called by the running thread `me` with its pending op already stored. Returns when `me` is
  * scheduled again and its op is enabled. */
+static int vs_last_run_point[VS_MAX_THREADS]; /* schedule point at which each thread was last given the processor */
 static void vs_schedule(int me) {
     for (;;) {
         if (vs_res->npoints >= vs_horizon || vs_res->npoints >= VS_MAX_POINTS - 1) {
@@ -287,9 +288,19 @@ static void vs_schedule(int me) {
         bool me_enabled = false;
         for (int i = 0; i < nen; ++i)
             if (en[i] == me) me_enabled = true;
-        /* canonical order: default first (running thread if enabled, else lowest id), then ascending ids, then pseudo */
+        /* canonical order: default first (running thread if enabled, else lowest id), then ascending ids, then pseudo.
+         * Fairness for busy-waiting: when the running thread has descheduled itself because it is spinning (it could run,
+         * nothing blocks it), the default successor is the enabled thread that has not run for the longest time, and
+         * picking any other one is a costed deviation like a preemption.  Without this the free alternatives at such
+         * points span an infinite tree of unfair schedules in which two spinners hand the processor to each other for
+         * ever while the thread they are waiting for is never chosen (three concurrent join-all callers); with it every
+         * schedule ends after at most `bound` unfair choices (Musuvathi & Qadeer, Fair Stateless Model Checking) */
+        bool me_spun = vs_th[me].state == 1 && vs_th[me].spin_yielded && vs_enabled(me);
         int alts[VS_MAX_THREADS + VS_MAX_THREADS * 2], na = 0;
         int def = me_enabled ? me : en[0];
+        if (!me_enabled && me_spun)
+            for (int i = 1; i < nen; ++i)
+                if (vs_last_run_point[en[i]] < vs_last_run_point[def]) def = en[i];
         alts[na++] = def;
         for (int i = 0; i < nen; ++i)
             if (en[i] != def) alts[na++] = en[i];
@@ -300,7 +311,7 @@ static void vs_schedule(int me) {
         p->op = (uint8_t)vs_th[me].op;
         p->obj = (uint16_t)vs_th[me].obj;
         p->nthr = (uint8_t)nthr;
-        p->thread_alt_cost = me_enabled ? 1 : 0;
+        p->thread_alt_cost = (me_enabled || me_spun) ? 1 : 0;
         for (int i = 0; i < nthr && i < 12; ++i) {
             p->alt_tid[i] = (uint8_t)alts[i];
             p->alt_kind[i] = (uint8_t)vs_th[alts[i]].op;
@@ -330,6 +341,7 @@ static void vs_schedule(int me) {
             continue;
         }
         int next = alts[choice];
+        vs_last_run_point[next] = vs_res->npoints;
         if (next != vs_last_runner) {
             for (int t = 0; t < vs_nthreads; ++t)
                 if (t != next) vs_th[t].spin_yielded = 0, vs_th[t].spin_count = 0;
